@@ -166,6 +166,7 @@ type World struct {
 const (
 	DB        = "db"
 	Coll      = "c"
+	NColl     = "n" // a collection that does not exist at the start (catalog-level scenarios)
 	QueueColl = "q" // the job queue of the read-modify-write scenarios (Scenario.Queue jobs j1..jN, prio i, state ready)
 )
 
@@ -292,10 +293,16 @@ func (w *World) record(h HRec) {
 // modelCall gives the model-level call of a simple op.
 func modelCall(op Op) CallInfo {
 	switch op.Kind {
-	case "ins", "ins3", "inc", "fau", "upd0", "dup", "bad", "del", "drop", "dropdb", "pop", "popu", "claim", "ups", "rups":
+	case "ins", "ins3", "inc", "fau", "upd0", "dup", "bad", "del", "drop", "dropdb", "pop", "popu", "claim", "ups", "rups",
+		"ccoll", "insn", "insu", "updall", "crix", "dropn":
 		return CallInfo{Call: "useTx", Lock: true, Sess: op.Sess, Op: op.Kind}
-	case "find":
+	case "find", "findn":
 		return CallInfo{Call: "useTx", Lock: false, Sess: op.Sess, Op: op.Kind}
+	case "badddl":
+		if badDDLBegins(op.Fault) {
+			return CallInfo{Call: "useTx", Lock: true, Sess: op.Sess, Op: op.Kind}
+		}
+		return CallInfo{Call: "none", Op: op.Kind}
 	case "sstart":
 		return CallInfo{Call: "sessStart", Sess: op.Sess, Op: op.Kind}
 	case "scommit":
@@ -497,6 +504,68 @@ func (w *World) call(ctx context.Context, a *actor, idx, sub int, op Op, inWtx b
 			return e
 		})
 		res.Wrote = err == nil
+	case "ccoll":
+		// Database.CreateCollection on db.n (a write without change events); it must never wipe documents
+		err = with(func(ctx context.Context) error { return w.Client.Database(DB).CreateCollection(ctx, NColl) })
+		res.Wrote = err == nil
+	case "insn":
+		err = with(func(ctx context.Context) error {
+			_, e := w.Client.Database(DB).Collection(NColl).InsertOne(ctx, bson.D{{Key: "_id", Value: tag}, {Key: "tag", Value: tag}, {Key: "b", Value: tag}})
+			return e
+		})
+		res.Wrote = err == nil
+	case "insu":
+		// ONE API call = ONE transaction: an unordered InsertMany of four documents
+		err = with(func(ctx context.Context) error {
+			docs := []interface{}{}
+			for i := 0; i < 4; i++ {
+				t := fmt.Sprintf("%s#%d", tag, i)
+				docs = append(docs, bson.D{{Key: "_id", Value: t}, {Key: "tag", Value: t}, {Key: "b", Value: tag}})
+			}
+			r, e := w.Client.Database(DB).Collection(NColl).InsertMany(ctx, docs, options.InsertMany().SetOrdered(false))
+			if r != nil {
+				res.Matched = int64(len(r.InsertedIDs))
+			}
+			return e
+		})
+		res.Wrote = err == nil
+	case "findn":
+		err = with(func(ctx context.Context) error {
+			cur, e := w.Client.Database(DB).Collection(NColl).Find(ctx, bson.D{})
+			if e != nil {
+				return e
+			}
+			var docs []bson.D
+			if e := cur.All(ctx, &docs); e != nil {
+				return e
+			}
+			res.Docs = []string{}
+			for _, d := range docs {
+				res.Docs = append(res.Docs, canon(d))
+			}
+			return nil
+		})
+	case "updall":
+		err = with(func(ctx context.Context) error {
+			r, e := w.Client.Database(DB).Collection(NColl).UpdateMany(ctx, bson.D{}, bson.D{{Key: "$set", Value: bson.D{{Key: "seen", Value: tag}}}})
+			if r != nil {
+				res.Matched, res.Modified = r.MatchedCount, r.ModifiedCount
+			}
+			return e
+		})
+		res.Wrote = err == nil && res.Modified > 0
+	case "crix":
+		err = with(func(ctx context.Context) error {
+			_, e := w.Client.Database(DB).Collection(NColl).Indexes().CreateOne(ctx, mongo.IndexModel{Keys: bson.D{{Key: "b", Value: 1}}})
+			return e
+		})
+		res.Wrote = err == nil
+	case "dropn":
+		err = with(func(ctx context.Context) error { return w.Client.Database(DB).Collection(NColl).Drop(ctx) })
+		res.Wrote = err == nil
+	case "badddl":
+		// catalog calls with invalid names: they must fail promptly and leave the writer slot free
+		err = with(func(ctx context.Context) error { return badDDL(ctx, w.Client, op.Fault) })
 	case "dup":
 		err = with(func(ctx context.Context) error {
 			_, e := w.coll(op).InsertOne(ctx, bson.D{{Key: "_id", Value: "ctr"}, {Key: "tag", Value: tag}})
@@ -759,4 +828,65 @@ func (w *World) Handle(actorID int) bool {
 	w.mu.Lock()
 	defer w.mu.Unlock()
 	return w.handles[actorID] != nil
+}
+
+// BadDDL lists the variants of op badddl: catalog calls with invalid names.
+var BadDDL = []string{"cc-empty", "db-empty", "db-dot", "drop-empty", "ix-empty", "dropix-empty", "ins-empty"}
+
+func badDDL(ctx context.Context, cl lungo.IClient, variant string) error {
+	switch variant {
+	case "cc-empty":
+		return cl.Database(DB).CreateCollection(ctx, "")
+	case "db-empty":
+		return cl.Database("").CreateCollection(ctx, "x")
+	case "db-dot":
+		_, e := cl.Database("a.b").Collection("x").InsertOne(ctx, bson.D{{Key: "x", Value: 1}})
+		return e
+	case "drop-empty":
+		return cl.Database(DB).Collection("").Drop(ctx)
+	case "ix-empty":
+		_, e := cl.Database(DB).Collection(Coll).Indexes().CreateOne(ctx, mongo.IndexModel{Keys: bson.D{}})
+		return e
+	case "dropix-empty":
+		_, e := cl.Database(DB).Collection(Coll).Indexes().DropOne(ctx, "")
+		return e
+	case "ins-empty":
+		_, e := cl.Database("").Collection("").InsertOne(ctx, bson.D{{Key: "x", Value: 1}})
+		return e
+	}
+	return nil
+}
+
+// badDDLBegins reports whether a variant fails AFTER Engine.Begin (then it is a useTransaction call
+// of the model with a failing callback) or before it (then it is no model call at all).  Learned
+// once per process by running the variant on a scratch engine with a counting hook.
+var (
+	badOnce   sync.Once
+	badBegins = map[string]bool{}
+)
+
+func badDDLBegins(variant string) bool {
+	badOnce.Do(func() {
+		cl, eng, err := lungo.Open(nil, lungo.Options{Store: lungo.NewMemoryStore(), ExpireInterval: time.Hour})
+		if err != nil {
+			return
+		}
+		defer eng.Close()
+		_, _ = cl.Database(DB).Collection(Coll).InsertOne(nil, bson.D{{Key: "_id", Value: "ctr"}})
+		for _, v := range BadDDL {
+			var n int64
+			setHooks(func(point string, args ...interface{}) {
+				if point == "begin.locked" {
+					atomic.AddInt64(&n, 1)
+				}
+			})
+			func() {
+				defer func() { _ = recover() }()
+				_ = badDDL(context.Background(), cl, v)
+			}()
+			setHooks(nil)
+			badBegins[v] = atomic.LoadInt64(&n) > 0
+		}
+	})
+	return badBegins[variant]
 }
